@@ -43,6 +43,8 @@ let zlist_of_tok s = if s = "-" then [] else List.map z_of_string (String.split_
 let tok_of_zlist l = if l = [] then "-" else String.concat "," (List.map string_of_z l)
 let err_name = function
   | EOverflow -> "EOverflow" | EIndex -> "EIndex" | ELaspy -> "ELaspy" | EValue -> "EValue"
+  | EShort -> "EShort" | EFuel -> "EFuel" | EStop -> "EStop" | EOther -> "EOther"
+let res f = function Ok a -> "ok " ^ f a | Err e -> "err " ^ err_name e
 
 (* ---------- Las model glue ---------- *)
 let explode s = List.init (String.length s) (String.get s)
